@@ -195,6 +195,7 @@ fn spawn_server(ex: &mut Exec, net: &Shared, rec: &Rc<RefCell<Rec>>, plans: Rc<V
                             r.reqs[slot].xid = req.headers().get("x-id").and_then(|v| v.to_str().ok()).and_then(|s| s.parse().ok());
                         }
                         let after = rec.borrow().reqs[slot].xid.and_then(|i| plans.get(i)).map(|p| p.after).unwrap_or(0);
+                        let pace = draw(4);
                         let mut body = vec![];
                         let mut failed = false;
                         loop {
@@ -245,12 +246,20 @@ fn spawn_server(ex: &mut Exec, net: &Shared, rec: &Rc<RefCell<Rec>>, plans: Rc<V
                             let resp = http::Response::builder().status(200).header("x-echo", "1").body(()).unwrap();
                             s.send_response(resp).await?;
                             let mut off = 0;
+                            // the application is not infinitely fast: a drawn number of scheduler turns passes between
+                            // its send calls, so that a fault can take effect between any two of them
                             while off < body.len() {
                                 let n = (body.len() - off).min(4096);
                                 s.send_data(SimBuf::one(body[off..off + n].to_vec())).await?;
                                 off += n;
+                                for _ in 0..pace {
+                                    exec::yield_now().await;
+                                }
                             }
                             if let Some(t) = trailers {
+                                for _ in 0..pace * 2 {
+                                    exec::yield_now().await;
+                                }
                                 s.send_trailers(t).await?;
                             }
                             s.finish().await
@@ -652,8 +661,8 @@ impl Check for C07 {
                 match p.fault {
                     Fault::Reset(..) => v.push((i, 2, vec![])),
                     Fault::Stop(_) => {
-                        let pos = draw_usize(v.len() + 1);
-                        v.insert(pos, (i, 3, vec![]));
+                        // the STOP_SENDING is issued by a watcher task of its own (below), once h3 has written a
+                        // drawn number of bytes on the stream; the script just completes the message
                         v.push((i, 1, vec![]));
                     }
                     _ => v.push((i, 1, vec![])),
@@ -676,6 +685,33 @@ impl Check for C07 {
             spawn_server(&mut ex, &net, &rec, Rc::new(plans.clone()), done.clone());
         } else {
             spawn_client(&mut ex, &net, &rec, n, req_bodies.clone(), plans.iter().map(|p| p.after).collect(), done.clone());
+        }
+        // STOP_SENDING watchers: a peer cannot stop a stream that does not exist yet, and where in h3's sending the
+        // stop takes effect matters (first write, between two body pieces, between the body and the trailers,
+        // after everything): it is issued once h3 has written at least a drawn number of bytes on the stream
+        for (i, p) in plans.iter().enumerate() {
+            if let Fault::Stop(c) = p.fault {
+                let id = (i as u64) << 2;
+                let threshold = if chance(1, 2) { 1 } else { 1 + draw_usize(p.body.len().max(req_bodies[i].len()) + 80) };
+                let net = net.clone();
+                ex.spawn(format!("peer-stop{i}"), async move {
+                    for _ in 0..3000 {
+                        if net.lock().unwrap().sent(id, 1 - peer).len() >= threshold {
+                            break;
+                        }
+                        exec::yield_now().await;
+                    }
+                    let mut n = net.lock().unwrap();
+                    if n.sent(id, 1 - peer).is_empty() {
+                        return;
+                    }
+                    n.raw_stop(id, peer, c);
+                    obs::count("fault.stop_sending_injected");
+                    if threshold > 1 {
+                        obs::count("probe.stop_sending_after_part_of_the_message");
+                    }
+                });
+            }
         }
         {
             let net = net.clone();
